@@ -38,7 +38,6 @@ import (
 	"path/filepath"
 	"regexp"
 	"runtime"
-	"runtime/debug"
 	"strings"
 	"syscall"
 	"testing"
@@ -81,7 +80,6 @@ func applyGuard() {
 	if err := syscall.Setrlimit(syscall.RLIMIT_AS, &lim); err != nil {
 		fmt.Fprintf(os.Stderr, "c08: cannot set RLIMIT_AS: %v (continuing with TotalAlloc metering only)\n", err)
 	}
-	_ = debug.SetGCPercent
 }
 
 // TestMain either supervises a guarded child (normal test runs) or is the
